@@ -19,6 +19,9 @@ unique names; every atom carries its ground truth:
   nest      class / struct / union three deep inside 0..2 namespaces
   op        unary vs binary forms of one symbol, binary-only, assignment family,
             typecast operators, operator (), operator [], global binary operators
+  virt      a derived class re-declaring an inherited virtual: base declaration section x
+            derived section x 8 inheritance shapes x const/mismatch x pure; the method must
+            be recorded for the class or for a base the database lists for it
   comment   target declaration of 15 kinds x comment style {none, //, ///, /* */, /** */,
             multi-line //} x {0,1,2} blank lines x trailing comment on the previous
             declaration's line {none, //, /* */} x preprocessor line in between
@@ -423,6 +426,24 @@ def check_comments(c, o, tr, cidx):
              "is not attached to %s which it immediately precedes" % (ent,))
 
 
+def reachable(o, cls, fname):
+    seen, todo = set(), [cls]
+    while todo:
+        cname = todo.pop()
+        if cname in seen:
+            continue
+        seen.add(cname)
+        for _, t in o.ty.get(cname, []):
+            if t["flags"] & (T_ENUM | T_TYPEDEF):
+                continue
+            for m in t["methods"]:
+                f = o.F.get(str(m))
+                if f and f["name"] == fname and (f["c_wrappers"] or f["python_wrappers"]):
+                    return True
+            todo += [o.tname(d["base"]) for d in t["derivations"]]
+    return False
+
+
 def judge(atom, o, cidx, same_ptr):
     c = Cmp()
     if isinstance(atom, hg.InhAtom):
@@ -446,6 +467,15 @@ def judge(atom, o, cidx, same_ptr):
         check_seq(c, o, d)
     if "comment_allowed" in tr:
         check_comments(c, o, tr, cidx)
+    for f in tr.get("optional_functions", ()):
+        if o.fn.get(f.scoped()) and f not in tr.get("functions", ()):
+            check_function(c, o, f)
+    for scoped in tr.get("absent_fn", ()):
+        c.ok("function %s" % scoped, not o.fn.get(scoped), "is recorded although its declaration "
+             "is not published")
+    for cls, fname in tr.get("reach", ()):
+        c.ok("published method %s of %s" % (fname, cls), reachable(o, cls, fname),
+             "is recorded neither for the class nor for any base class the database lists for it")
     if tr.get("unary_binary_split"):
         fs = tr["functions"]
         c.ok("unary and binary %s" % fs[0].scoped(), len(o.fn.get(fs[0].scoped(), [])) == 2,
@@ -471,6 +501,7 @@ def make_atoms(tier):
     fam["nest"] = [hg.NestAtom(pfx("n"), ns, ks) for ns, ks in hg.nest_space(tier)]
     fam["op"] = [hg.OpAtom(pfx("o"), f, s) for f, s in hg.op_space(tier)]
     fam["comment"] = [hg.CommentAtom(pfx("k"), *x) for x in hg.comment_space(tier)]
+    fam["virt"] = [hg.VirtAtom(pfx("v"), *x) for x in hg.virt_space(tier)]
     return fam
 
 
@@ -534,7 +565,7 @@ def main():
         n = size.get(name, 150)
         for i in range(0, len(atoms), n):
             batches.append((name, i // n, "c", atoms[i:i + n]))
-    for name in ("sig", "op", "inh", "prop"):
+    for name in ("sig", "op", "inh", "prop", "virt"):
         atoms = fam.get(name, [])
         n = size.get(name, 150)
         sub = atoms if ck.tier == "thorough" or name != "sig" else atoms[::2]
